@@ -524,6 +524,11 @@ func runNative(repo, verif, pkg, fn, vector string) (string, error) {
 			repl[f] = tf
 		}
 	}
+	stateImport, stateFailures := "", ""
+	if pkg == "client" {
+		stateImport = "\n\t\"github.com/fluffle/goirc/state\"\n"
+		stateFailures = "vFailures = append(vFailures, state.VFailures()...)"
+	}
 	testSrc := fmt.Sprintf(`//go:build verif
 
 package %s
@@ -531,7 +536,7 @@ package %s
 import (
 	"fmt"
 	"testing"
-)
+%s)
 
 func TestVerifReplay(t *testing.T) {
 	var pv interface{}
@@ -547,6 +552,7 @@ func TestVerifReplay(t *testing.T) {
 		fmt.Printf("VERIF-REPLAY outcome=panic detail=%%v\n", pv)
 		return
 	}
+	%s
 	for _, f := range vFailures {
 		fmt.Printf("VERIF-REPLAY outcome=assert:%%s\n", f)
 	}
@@ -554,7 +560,7 @@ func TestVerifReplay(t *testing.T) {
 		fmt.Println("VERIF-REPLAY outcome=clean")
 	}
 }
-`, pkg, fn)
+`, pkg, stateImport, fn, stateFailures)
 	tf := filepath.Join(tmp, "zz_verif_replay_test.go")
 	os.WriteFile(tf, []byte(testSrc), 0o644)
 	repl[filepath.Join(repo, pkg, "zz_verif_replay_test.go")] = tf
